@@ -13,14 +13,14 @@ LEVEL = "exploration"
 RULE = ("union-free / Optional-only types from grammar U; pass-through: one evaluation = unmarshal(T, v) for a valid v made of "
         "exactly the annotated classes (adversarial strings, 2-element members first, str-mixin enums); idempotence: one "
         "evaluation = unmarshal(T, unmarshal(T, x)) for x from wire forms, their corruptions and the hostile pool whenever "
-        "the first call returned; distinct = (type source, canonical input); non-trivial = composite type or text-like value")
+        "the first call returned; plus the repository's own test-suite run under an idempotence monitor on every unmarshal call and unmarshaller routine call of union-free, fully annotated types; distinct = (type source, canonical input); non-trivial = composite type or text-like value")
 ASSUMPTIONS = [
     "values of abstractly spelled collection types are instances of the documented concrete builtin (Sequence -> list ...)",
     "one-shot iterator inputs are not re-fed for the idempotence form (their first result is a concrete container, which is)",
 ]
 PLAN = {"quick": dict(programs=4000, depth=3, values=8, pool=8), "thorough": dict(programs=40000, depth=4, values=12, pool=16)}
-FLOORS = {"quick": {"passthrough_checked": 80000, "idempotence_checked": 300000, "shapes": 4000},
-          "thorough": {"passthrough_checked": 800000, "idempotence_checked": 800000, "shapes": 30000}}
+FLOORS = {"quick": {"suite_unmarshal_idempotence_judged": 3000, "suite_tests_passed": 1400, "passthrough_checked": 80000, "idempotence_checked": 300000, "shapes": 4000},
+          "thorough": {"suite_unmarshal_idempotence_judged": 3000, "suite_tests_passed": 1400, "passthrough_checked": 800000, "idempotence_checked": 800000, "shapes": 30000}}
 
 
 def report(sh, kind, spec, a, b, tsrc, prog, extra=""):
@@ -112,3 +112,13 @@ def run_case(sh, i, plan):
 def run_shard(sh):
     plan = PLAN[sh.tier]
     sh.run_cases(per_shard(plan["programs"], sh.nshards, sh.shard), lambda i: run_case(sh, i, plan))
+
+    # second workload: the repository's own test-suite, watched by the spec-free monitors of vlib/suitemon.py (last, so that its
+    # cache state cannot shape the cases above); one shard runs it
+    if sh.shard == sh.nshards - 1:
+        from vlib import suitemon
+
+        suitemon.run_repo_suite(sh, ['idempotence'])
+    else:
+        for k in ['suite_unmarshal_idempotence_judged', 'suite_tests_passed']:
+            sh.count(k, 0)
